@@ -377,6 +377,23 @@ pub fn gen_alternative(rng: &mut Rng, garbage: bool) -> String {
     s
 }
 
+/// comparators joined by blanks, without the hyphen form and with only "closed" garbage tokens
+/// (tokens whose classification does not depend on what follows them)
+pub fn gen_comparator_list(rng: &mut Rng) -> String {
+    const CLOSED: &[&str] = &["foo", "1.y", ">=1.y", "1.2.3.4", "1.2beta4", ">>1", "1."];
+    let n = *rng.pick(&[1usize, 1, 2, 2, 3]);
+    let mut parts = Vec::new();
+    for _ in 0..n {
+        if rng.chance(1, 10) {
+            parts.push(rng.pick(CLOSED).to_string());
+        }
+        // no blank inside a comparator: `>= 1` would be one comparator but `a b` with a = `>=` is not closed
+        let op = *rng.pick(OPS);
+        parts.push(format!("{}{}", op, gen_partial(rng)));
+    }
+    parts.join(" ")
+}
+
 pub fn gen_range_text(rng: &mut Rng, garbage: bool) -> String {
     let n = *rng.pick(&[1usize, 1, 1, 2, 2, 3]);
     let mut s = String::new();
@@ -745,6 +762,28 @@ pub fn run_stream(name: &str, thorough: bool, rng: &mut Rng, o: &mut Out) {
                 o.rround(&t);
             }
         }
+        "c02" => {
+            // pairs of comparator lists (no hyphen form) for the AND law, arbitrary texts for the OR law
+            for i in 0..5000 * scale {
+                let (a, b) = if i % 3 == 0 {
+                    (gen_range_text(rng, true), gen_range_text(rng, true))
+                } else {
+                    (gen_comparator_list(rng), gen_comparator_list(rng))
+                };
+                let joined = format!("{} || {}", a, b);
+                let printed = Range::parse(&joined).map(|r| r.to_string()).unwrap_or_default();
+                let grid = version_grid(rng, &printed, 2);
+                for _ in 0..6 {
+                    let v = rng.pick(&grid).clone();
+                    o.c02(&a, &b, &v);
+                }
+            }
+            for (a, b) in [(">=1.2.3", "<1.0.0"), (" - 1", "2"), ("1", " - 2"), ("foo", "1.2.3"), ("foo", "bar"), (">=1.0.0-0", "<1"), ("^0", ">=0.0.0-0"), ("1.2.3 foo", "4.5.6")] {
+                for v in ["0.5.0", "1.0.0", "1.2.3", "1.0.0-alpha", "0.0.0-0", "2.0.0", "4.5.6"] {
+                    o.c02(a, b, &Version::parse(v).unwrap());
+                }
+            }
+        }
         "sat_gram" => {
             for _ in 0..4000 * scale {
                 let t = gen_range_text(rng, true);
@@ -1023,6 +1062,10 @@ pub fn replay_line(line: &str, o: &mut Out) {
                 Ok(r) => o.sat(&t, &r, &v),
                 Err(_) => bad(o),
             },
+            _ => bad(o),
+        },
+        "c02" => match (f.get(1).and_then(|x| unhex(x)), f.get(2).and_then(|x| unhex(x)), f.get(3).and_then(|x| dec_version(x))) {
+            (Some(a), Some(b), Some(v)) => o.c02(&a, &b, &v),
             _ => bad(o),
         },
         "npm" => match (f.get(2).and_then(|x| unhex(x)), f.get(3).and_then(|x| dec_version(x))) {
